@@ -1,5 +1,6 @@
 //! REAL flavour only: a global allocator that inspects every block at the moment it is released (C20 replay).
-//! While armed, a freed block containing 8 consecutive marker bytes (0xA7) counts as dirty.
+//! While armed, a freed block containing 8 consecutive marker bytes (0xA7), the decimal rendering of the marker value, or a
+//! bit-vector encoding (words all 0/1 or all 0/-1) counts as dirty.
 use std::alloc::{GlobalAlloc, Layout, System};
 use std::sync::atomic::{AtomicBool, AtomicUsize, Ordering};
 
@@ -30,6 +31,47 @@ unsafe fn scan(ptr: *mut u8, size: usize) {
                 return;
             }
             k += 1;
+        }
+    }
+    // a bit decomposition of the witness: at least 8 consecutive 32-byte words that are all the scalars 0 / 1 (a_L) or all 0 / -1 (a_R),
+    // both values occurring (an all-zero block is a wiped one)
+    const ONE: [u8; 32] = [1, 0, 0, 0, 0, 0, 0, 0, 0, 0, 0, 0, 0, 0, 0, 0, 0, 0, 0, 0, 0, 0, 0, 0, 0, 0, 0, 0, 0, 0, 0, 0];
+    const MINUS_ONE: [u8; 32] = [
+        0xec, 0xd3, 0xf5, 0x5c, 0x1a, 0x63, 0x12, 0x58, 0xd6, 0x9c, 0xf7, 0xa2, 0xde, 0xf9, 0xde, 0x14, 0, 0, 0, 0, 0, 0, 0, 0, 0, 0, 0, 0, 0, 0, 0, 0x10,
+    ];
+    if size >= 8 * 32 && size % 32 == 0 {
+        for pat in [&ONE, &MINUS_ONE] {
+            let (mut zeros, mut hits, mut other) = (0usize, 0usize, false);
+            let mut w = 0usize;
+            while w < size / 32 {
+                let mut is_zero = true;
+                let mut is_pat = true;
+                let mut j = 0usize;
+                while j < 32 {
+                    let b = *ptr.add(w * 32 + j);
+                    if b != 0 {
+                        is_zero = false;
+                    }
+                    if b != pat[j] {
+                        is_pat = false;
+                    }
+                    j += 1;
+                }
+                if is_zero {
+                    zeros += 1;
+                } else if is_pat {
+                    hits += 1;
+                } else {
+                    other = true;
+                    break;
+                }
+                w += 1;
+            }
+            if !other && zeros >= 1 && hits >= 1 {
+                DIRTY.fetch_add(1, Ordering::Relaxed);
+                DIRTY_SIZE.store(size, Ordering::Relaxed);
+                return;
+            }
         }
     }
     let mut run = 0usize;
